@@ -133,8 +133,21 @@ def gen(run_seed: int, tier: str) -> dict:
             op["abs"] = True if cwd != rootname else bool(t.draw(2, "abs"))
             ops.append(op)
         elif k < 85:
-            ev = t.pick(["edit", "edit", "delete", "add", "rename", "touch", "directive", "directive", "directive"], "event")
+            ev = t.pick(["edit", "edit", "delete", "add", "rename", "touch", "directive", "directive", "directive", "tweak", "tweak"], "event")
             fs = sorted(files)
+            if ev == "tweak":
+                # same size, same second: one digit of one number changes (a cache keyed by size or coarse mtime goes stale)
+                import re as _re
+                cands = [f for f in fs if _re.search(r"(?<![A-Za-z_0-9.])[2-9]\d(?![\d.])", files[f])]
+                if cands:
+                    rel = t.pick(cands, "rel")
+                    ms = list(_re.finditer(r"(?<![A-Za-z_0-9.])[2-9]\d(?![\d.])", files[rel]))
+                    m = ms[t.draw(len(ms), "which_num")]
+                    old_num = m.group(0)
+                    new_num = str(10 + (int(old_num) + 7 + t.draw(60, "delta")) % 90)
+                    files[rel] = files[rel][:m.start()] + new_num + files[rel][m.end():]
+                    ops.append({"op": "edit", "rel": rel, "content": files[rel], "why": "same-size-tweak"})
+                continue
             if ev == "directive":
                 # flip suppression directives in place, keeping everything else where it is
                 with_dir = [f for f in fs if "dry: ignore" in files[f] or "thailint: ignore" in files[f]]
